@@ -51,7 +51,12 @@ type Op struct {
 	Path  string // target path (new path for rename)
 	Path2 string // old path for rename
 	Data  []byte // write
-	Ino   int    // file identity for create/write/fsync
+	Ino   int    // identity of the file or directory the operation is about
+	Dir   int    // identity of the parent directory (metadata operations)
+	Name  string // entry name inside Dir
+	Dir2  int    // rename: source directory
+	Name2 string // rename: source name
+	Trunc bool   // create on an existing file: truncation only, no new entry
 	Note  string
 }
 
@@ -75,7 +80,7 @@ type FS struct {
 var Cur *FS
 
 func NewFS() *FS {
-	return &FS{Root: &Node{IsDir: true, Children: map[string]*Node{}}}
+	return &FS{Root: &Node{IsDir: true, Children: map[string]*Node{}, Ino: 1}, nextIno: 1}
 }
 
 func Reset() *FS { Cur = NewFS(); return Cur }
@@ -131,9 +136,10 @@ func MkdirAll(p string, perm FileMode) error {
 			if f.fail() {
 				return errInjected
 			}
-			nx = &Node{IsDir: true, Children: map[string]*Node{}}
+			f.nextIno++
+			nx = &Node{IsDir: true, Children: map[string]*Node{}, Ino: f.nextIno}
 			cur.Children[s] = nx
-			f.log(Op{Kind: OpMkdir, Path: path})
+			f.log(Op{Kind: OpMkdir, Path: path, Ino: nx.Ino, Dir: cur.Ino, Name: s})
 		} else if !nx.IsDir {
 			return &fs.PathError{Op: "mkdir", Path: path, Err: errors.New("not a directory")}
 		}
@@ -163,14 +169,16 @@ func Create(p string) (*File, error) {
 	if f.fail() {
 		return nil, errInjected
 	}
+	trunc := false
 	if n == nil {
 		f.nextIno++
 		n = &Node{Ino: f.nextIno}
 		parent.Children[name] = n
 	} else {
 		n.Data = nil
+		trunc = true
 	}
-	f.log(Op{Kind: OpCreate, Path: filepath.Clean(p), Ino: n.Ino})
+	f.log(Op{Kind: OpCreate, Path: filepath.Clean(p), Ino: n.Ino, Dir: parent.Ino, Name: name, Trunc: trunc})
 	return &File{fs: f, node: n, path: filepath.Clean(p), wr: true}, nil
 }
 
@@ -303,7 +311,7 @@ func Remove(p string) error {
 	if n.IsDir {
 		k = OpRmdir
 	}
-	f.log(Op{Kind: k, Path: filepath.Clean(p), Ino: n.Ino})
+	f.log(Op{Kind: k, Path: filepath.Clean(p), Ino: n.Ino, Dir: parent.Ino, Name: name})
 	return nil
 }
 
@@ -346,6 +354,28 @@ func Rename(oldp, newp string) error {
 	}
 	delete(op.Children, oname)
 	np.Children[nname] = n
-	f.log(Op{Kind: OpRename, Path: filepath.Clean(newp), Path2: filepath.Clean(oldp)})
+	f.log(Op{Kind: OpRename, Path: filepath.Clean(newp), Path2: filepath.Clean(oldp), Ino: n.Ino, Dir: np.Ino, Name: nname, Dir2: op.Ino, Name2: oname})
 	return nil
+}
+
+// FromRoot wraps a tree as a file system (crash images).
+func FromRoot(root *Node) *FS {
+	max := 0
+	var walk func(n *Node)
+	walk = func(n *Node) {
+		if n.Ino > max {
+			max = n.Ino
+		}
+		for _, c := range n.Children {
+			walk(c)
+		}
+	}
+	walk(root)
+	return &FS{Root: root, nextIno: max + 1000}
+}
+
+// Lookup returns the node at path p or nil.
+func (f *FS) Lookup(p string) *Node {
+	n, _, _ := f.lookup(p)
+	return n
 }
